@@ -15,7 +15,7 @@ PROPERTY = "C21"
 LEVEL = "model_checking"
 META = {
     "engine": "hbfs",
-    "technique": "explicit-state BFS over call histories of a real BehaviorSubject with heap-canonical state de-duplication, judged by a plain-list reference model",
+    "technique": "explicit-state BFS over call histories of a real BehaviorSubject with heap-canonical state de-duplication, judged by a plain-list reference model; plus stateless exhaustive exploration of thread interleavings (bounded preemptions) of subscribe() / dispose() racing the emitting thread, judged against the sequential placements on the same real class",
     "text": "every history over sub(i)/unsub(i)/next(a|b)/error/complete/dispose (+ callback-only subscribe after dispose) up to the depth "
     "bound, for initial values incl. None and falsy ones and for every listed configuration of plain and scripted (re-entrant) observers - "
     "including observers that subscribe/unsubscribe others from inside the on_next that hands them the current value during subscribe() - "
